@@ -56,6 +56,7 @@ def run(repo, rep, tier):
     rep.rule("R10.6", "attribute translation: explicit/implicit msgid, "
                       "Translate wrapper, emit_translate default")
     _translate(repo, rep)
+    implicit_inside_explicit(repo, rep)
     _siblings(repo, rep)
     _settings(repo, rep)
     _names(repo, rep)
@@ -884,6 +885,72 @@ def _messages(repo, rep):
                       detail="defined here: %s" % sorted(helpers))
     rep.require_min("R10.5", 5, "__quote, __convert, emit_convert, helper "
                     "scoping in render and filler functions")
+
+
+def _leaves(v, conds=()):
+    if isinstance(v, A.Alt):
+        yield from _leaves(v.a, conds + ((v.test, True),))
+        yield from _leaves(v.b, conds + ((v.test, False),))
+    else:
+        yield conds, v
+
+
+def implicit_inside_explicit(repo, rep, rule="R10.1"):
+    """'exactly once': with implicit_i18n_translate the text pieces of an
+    element are translated one by one -- unless the element is marked
+    i18n:translate, whose message they are part of (else the marked element
+    is translated a second time, from already translated pieces)."""
+    PROG = "chameleon.zpt.program.MacroProgram."
+    vt = repo.func(PROG + "visit_text")
+    flag = None
+    for n in ast.walk(vt.node):
+        if isinstance(n, ast.Assign) and src(n.targets[0]) == "translation":
+            flag = n.value
+    stack = None
+    if flag is not None:
+        e = L.inline_locals(vt.node, flag)
+        conj = e.values if isinstance(e, ast.BoolOp) and isinstance(
+            e.op, ast.And) else [e]
+        tops = [c for c in conj if isinstance(c, ast.Subscript)
+                and src(c.slice) == "-1" and src(c.value).startswith("self._")]
+        if any(src(c) == "self.implicit_i18n_translate" for c in conj) and \
+                len(tops) == 1:
+            stack = src(tops[0].value)
+    rep.check(stack is not None, rule, vt.qualname, "text is translated "
+              "implicitly only if the option is on AND the enclosing "
+              "elements allow it (top of a per-element stack)",
+              construct="implicit-consults-stack", where=L.where(vt),
+              detail=src(flag) if flag is not None else "no flag")
+    if stack is None:
+        return
+    f = repo.func(PROG + "visit_element")
+    res = L.emission(repo, f.qualname)
+    L.g_pair_stack(rep, rule, f, res, stack)
+    tr = list(A.flatten(res.trace))
+    push = [it for it, c in tr if isinstance(it, A.Effect)
+            and it.kind == "push" and it.target == stack]
+    ok = False
+    detail = "no push"
+    if push:
+        v = push[0].arg.items[0] if isinstance(push[0].arg, A.Tup) else None
+        vals = {}
+        for conds, leaf in (_leaves(v) if v is not None else []):
+            vals.setdefault(A.show(leaf, limit=4), []).append(conds)
+        detail = str({k: [[(c, b) for c, b in cs] for cs in v_]
+                      for k, v_ in vals.items()})[:300]
+        off = vals.get("False", [])
+        ok = any(any("I18N, 'translate'" in c and "in ns" in c and b
+                     for c, b in cs) for cs in off) and any(
+            stack in k and "-1" in k for k in vals)
+    rep.check(ok, rule, f.qualname, "an element marked i18n:translate "
+              "switches implicit translation off for its own text, other "
+              "elements inherit the setting", construct="implicit-off-inside-"
+              "explicit", where=L.where(f), detail=detail)
+    init = repo.func(PROG + "__init__")
+    t = L.text(init.node, body_only=True)
+    rep.check("%s = [True]" % stack in t, rule, init.qualname,
+              "implicit translation is allowed at the top level",
+              construct="implicit-initial", where=L.where(init))
 
 
 def translate_skips_none(repo, rep, rule="R10.6"):
